@@ -287,6 +287,15 @@ func (c c18) Execute(p *core.Plan) *core.Result {
 			n.SetBit(n, 0, 1)
 			pub := &rsa.PublicKey{N: n, E: int(st.Arg(1, 65537))}
 			checkRSA("synthetic", pub)
+			if st.Arg(2, 0)%3 == 0 {
+				// the same modulus under another exponent, right afterwards (and back)
+				e2 := 65537
+				if pub.E == 65537 {
+					e2 = 3
+				}
+				checkRSA("synthetic-same-modulus", &rsa.PublicKey{N: n, E: e2})
+				checkRSA("synthetic-same-modulus", pub)
+			}
 			res.Nontrivial(fmt.Sprintf("synth/%d/%d", bits, pub.E))
 		case "rustkeys":
 			c.rustKeys(res, checkRSA)
